@@ -40,6 +40,19 @@ def run(tier, seed):
                                  "--rounds", "20", "--lim", str(rng.choice([400, 600, 900]))])
             for i in range(4 if tier == "quick" else 24)]
     collect(PROP, ce.run_free(fxv, rd, free), rd, ["MemBound"], viol, cst)
+    # recovery part: stores obtained by the real recovery from crash images (two generations of a key
+    # with values of different lengths on the device, torn batches, retired extents)
+    import crashengine as cre
+    cjobs = []
+    for i in range(6 if tier == "quick" else 40):
+        cjobs.append(("rec%d" % i, ["--seed", str(rng.randrange(1 << 30)), "--steps", str(rng.choice([25, 35])),
+                                     "--fmt", str([3, 3, 2, 1][i % 4]), "--blocks", str(rng.choice([40, 48])),
+                                     "--cpus", "2", "--keys", str(rng.choice([3, 4])), "--ttl", "1", "--end", "leak",
+                                     "--flushpct", "10", "--maximages", "600", "--cc", "3"]))
+    cviol, crst, ctraces = cre.run_and_validate(PROP, fxv, rd, cjobs, ["RealMem"])
+    viol += cviol
+    st["traces"] += crst["traces"]; st["states"] += crst["states"]; st["transitions"] += crst["transitions"]
+    rec_images = crst["images_real"]
     st["traces"] += cst["traces"]; st["states"] += cst["states"]; st["transitions"] += cst["transitions"]
     st["events"] += cst["events"]
     cov = q.coverage_dict(
@@ -47,7 +60,7 @@ def run(tier, seed):
         "one trace = one seeded program (creates, growing/shrinking updates, deletes, expiries, sweeps, "
         "flushes, reopen) with memory_usage() and len() compared after EVERY call against the sum over "
         "present keys of (size_of::<Record>() + key length + value length); memory limits 700..9000 bytes",
-        q.sample_events(st["sample_trace"]), extra={"concurrent_schedules": cst["schedules"]})
+        q.sample_events(st["sample_trace"]), extra={"concurrent_schedules": cst["schedules"], "recovered_stores_checked": rec_images})
     return {"level": "model_checking", "coverage": cov, "violations": viol,
             "assumptions": ["per-record overhead read from size_of::<Record>() at run time"]}
 
